@@ -58,3 +58,23 @@ Proof.
   destruct (negb (go_has_s name (r_sources reg))); [exact I|].
   destruct (go_slice _ 0%Z (Z.of_N pos)); exact I.
 Qed.
+
+(* Model/Interp.v's [render] computes rr_line through line_number on the recorded source of the failing template: the
+   same function, for a registry that records [src] under [name] *)
+Theorem line_number_matches_source (name src : bstr) (more : list (bstr * bstr)) (pos : N) :
+  (Z.of_nat (length src) < 2 ^ 62)%Z ->
+  line_number src pos =
+  match src_template_Registry_LineNumber (Z.of_N pos) ((name, src) :: more) name with
+  | Some l => Some (Z.to_N l)
+  | None => None
+  end.
+Proof.
+  intros Hlen.
+  pose proof (reg_line_matches_source {| r_templates := []; r_sources := (name, src) :: more; r_files := [] |} name pos) as H.
+  cbn [r_sources] in H. unfold reg_line in H. cbn [r_sources assoc_s] in H. rewrite st_bstr_eqb_refl in H.
+  assert (Hg : forall s0 : bstr, Some src = Some s0 -> (Z.of_nat (length s0) < 2 ^ 62)%Z) by (intros s0 E; injection E as <-; exact Hlen).
+  specialize (H Hg).
+  destruct (src_template_Registry_LineNumber (Z.of_N pos) ((name, src) :: more) name) as [l|];
+    destruct (line_number src pos); try discriminate; try reflexivity.
+  injection H as ->. reflexivity.
+Qed.
